@@ -517,7 +517,7 @@ func c14RunNest(ctx *Ctx, c c14NestCase) {
 
 func TestC14(t *testing.T) {
 	r := newRec("C14",
-		"cases are (function, receiver string, pattern/replacement, start, length, delivery): strings of 0..12 runes over {ASCII, space, é (2 bytes), € (3), 😀 (4), combining acute, ß, İ, quote, backslash}, start ∈ [-2,len+2] ∪ boundary int32, length ∈ [-1,len+2] ∪ boundary int32, patterns = rune-aligned substrings, near misses, '' and random strings; receivers as literals, System variables and FHIR string/code/markdown/uri elements; an exhaustive stage enumerates every string of length ≤ 3 (quick) / ≤ 5 (thorough) over a 5-rune alphabet × all positions × all short substrings; non-trivial = bytes ≠ characters before the position/pattern, or the position is out of range, or (other functions) the receiver has a multi-byte rune; distinct = FNV-64 of (source, operands)",
+		"cases are (function, receiver string, pattern/replacement, start, length, delivery): strings of 0..12 runes over {ASCII, space, é (2 bytes), € (3), 😀 (4), combining acute, ß, İ, quote, backslash, regexp metacharacters} and, for 22% of the characters, any graphic rune of Unicode drawn per UTF-8 shape (2 bytes, 3 bytes with lead byte E0, other 3 bytes, 4 bytes) or from the runes whose case mapping changes the encoded length, start ∈ [-2,len+2] ∪ boundary int32, length ∈ [-1,len+2] ∪ boundary int32, patterns = rune-aligned substrings, near misses, '' and random strings; receivers as literals, System variables and FHIR string/code/markdown/uri elements; an exhaustive stage enumerates every string of length ≤ 3 (quick) / ≤ 5 (thorough) over a 5-rune alphabet × all positions × all short substrings; non-trivial = bytes ≠ characters before the position/pattern, or the position is out of range, or (other functions) the receiver has a multi-byte rune; distinct = FNV-64 of (source, operands)",
 		"reference model over []rune; upper/lower asserted only on runes without special casing; substring with a negative length is not asserted (statement silent)")
 	runProperty(t, r,
 		Stage[c14Case]{Name: "short-strings", Enum: c14Enum, Run: c14Run},
